@@ -73,10 +73,10 @@ META = dict(
     "while its row exists.",
     rule="state = model state + deep canonical form of the real Session; transition = one op on a replayed history, executed "
     "on implementation and model; non-trivial = a commit/rollback-class op that ran with >= 1 object in the session",
-    assumptions=["single Session, single thread, SQLite file database with autocommit=False (real SAVEPOINTs)"],
+    assumptions=["single Session, single thread, SQLite file database with autocommit=False (real SAVEPOINTs)", "Session(autoflush=True) and Session(autoflush=False); begin_nested() also issued inside a no_autoflush block"],
     bounds=dict(
-        quick="plain world depth <= 6, natural-key world depth <= 5 (beyond the initial load) x expire_on_commit {True,False}, savepoint depth <= 2",
-        thorough="plain world depth <= 7, natural-key world depth <= 6",
+        quick="plain world depth <= 6, natural-key world depth <= 5 (beyond the initial load) x expire_on_commit {True,False}, savepoint depth <= 2; autoflush=False worlds one level shallower",
+        thorough="plain world depth <= 7, natural-key world depth <= 6; autoflush=False worlds one level shallower",
     ),
 )
 
@@ -103,10 +103,11 @@ STATE_OPS = CHECK_OPS + ("close",)  # close() releases (rolls back) the transact
 ROLLBACK_OPS = ("rollback", "sp_rollback")
 
 
-def make_cfg(world, eoc):
+def make_cfg(world, eoc, autoflush=True):
     cfg = dict(WORLDS[world])
     cfg["world"] = world
     cfg["eoc"] = eoc
+    cfg["autoflush"] = autoflush
     return cfg
 
 
@@ -141,6 +142,7 @@ def enabled(ms, world):
     ops += [("flush",), ("commit",), ("rollback",)]
     if ms.nsp < 2:
         ops.append(("begin_nested",))
+        ops.append(("begin_nested_nf",))  # the same inside ``with session.no_autoflush:``
     if ms.nsp > 0:
         ops += [("sp_rollback",), ("sp_commit",)]
     ops.append(("close",))
@@ -209,7 +211,9 @@ def check_step(cfg, hist_, ms, op):
             mc = rows_as_tuples(m2.committed)
             info.update(session_rows=sv, committed_rows=cv)
             canon = W.deep_canon(w)  # before the attribute accesses below
-            if kind in CHECK_OPS:
+            if kind in CHECK_OPS or kind in ("begin_nested", "begin_nested_nf"):
+                # (begin_nested() is documented to flush before it emits SAVEPOINT: what it
+                # leaves unflushed would wrongly become savepoint work)
                 if sv != mv:
                     problems.append(("%s: rows of the surviving scope differ from the nested-transaction model" % head, "session sees %r, model %r" % (sv, mv)))
                 if cv != mc:
@@ -291,14 +295,14 @@ def check_step(cfg, hist_, ms, op):
 def make_step(cfg, rec):
     def step(hist_, ms, op):
         problems, m2, pr, canon, info, nontrivial = check_step(cfg, hist_, ms, op)
-        rec.case((cfg["world"], cfg["eoc"], ms.canon(), op), nontrivial=nontrivial is True)
+        rec.case((cfg["world"], cfg["eoc"], cfg["autoflush"], ms.canon(), op), nontrivial=nontrivial is True)
         if pr.undefined:
             rec.count("ops skipped: outcome undocumented (persistent object without a row)")
             return None
         if problems:
             sig, detail = problems[0]
-            case = dict(world=cfg["world"], eoc=cfg["eoc"], history=[list(h) for h in hist_], op=list(op))
-            if op[0] in ("commit", "begin_nested", "sp_commit") and not ms.is_clean():
+            case = dict(world=cfg["world"], eoc=cfg["eoc"], autoflush=cfg["autoflush"], history=[list(h) for h in hist_], op=list(op))
+            if op[0] in ("commit", "begin_nested", "begin_nested_nf", "sp_commit") and not ms.is_clean():
                 # minimise: the same op after an explicit flush
                 m_f = ms.copy()
                 pr_f = m_f.apply(("flush",))
@@ -325,13 +329,17 @@ def make_step(cfg, rec):
             rec.outcome((op[0], tuple(sorted(info["lifecycle"].items())), repr(info.get("session_rows")), repr(info.get("committed_rows"))))
             if nontrivial is True and len(hist_) >= 3:
                 rec.sample(dict(world=cfg["world"], eoc=cfg["eoc"], history=[list(h) for h in hist_], op=list(op), objects=info["lifecycle"], session_rows=repr(info["session_rows"]), committed=repr(info["committed_rows"])), limit=3)
-        return m2, (cfg["world"], cfg["eoc"], m2.canon(), canon)
+        return m2, (cfg["world"], cfg["eoc"], cfg["autoflush"], m2.canon(), canon)
 
     return step
 
 
 def shards(tier, seed):
     return [None]
+
+
+# Session(autoflush=False) worlds run one level shallower (begin_nested must flush all the same)
+CONFIGS = [(w, e, True) for w in ("plain", "natural") for e in (True, False)] + [("plain", True, False), ("plain", False, False), ("natural", True, False)]
 
 
 SHARD_TIMEOUT = dict(quick=3600, thorough=6 * 3600)
@@ -344,27 +352,26 @@ WARM = dict(
 def run_shard(shard, tier, rec):
     jobs = W.jobs_from_argv()
     try:
-        for world in ("plain", "natural"):
-            for eoc in (True, False):
-                cfg = make_cfg(world, eoc)
-                ms0 = model_for(cfg)
-                w0 = build(cfg, ())
-                try:
-                    key0 = (world, eoc, ms0.canon(), W.deep_canon(w0))
-                finally:
-                    w0.close()
-                d = W.explore_levels(
-                    rec,
-                    ID,
-                    [((), ms0, key0)],
-                    lambda ms, world=world: enabled(ms, world),
-                    lambda r, cfg=cfg: make_step(cfg, r),
-                    DEPTH[tier][world],
-                    jobs,
-                    warm=[(cfg, WARM[world])],
-                    ctx=dict(world=world, eoc=eoc),
-                )
-                rec.count("depth completed %s eoc=%s" % (world, eoc), d)
+        for world, eoc, af in CONFIGS:
+            cfg = make_cfg(world, eoc, af)
+            ms0 = model_for(cfg)
+            w0 = build(cfg, ())
+            try:
+                key0 = (world, eoc, af, ms0.canon(), W.deep_canon(w0))
+            finally:
+                w0.close()
+            d = W.explore_levels(
+                rec,
+                ID,
+                [((), ms0, key0)],
+                lambda ms, world=world: enabled(ms, world),
+                lambda r, cfg=cfg: make_step(cfg, r),
+                DEPTH[tier][world] - (0 if af else 1),
+                jobs,
+                warm=[(cfg, WARM[world])],
+                ctx=dict(world=world, eoc=eoc, autoflush=af),
+            )
+            rec.count("depth completed %s eoc=%s autoflush=%s" % (world, eoc, af), d)
     finally:
         W.cleanup()
 
@@ -380,7 +387,7 @@ def replay(case):
         case = dict(case.get("ctx") or {}, history=case["history"], op=case["op"])
     gc.disable()
     try:
-        cfg = make_cfg(case["world"], case["eoc"])
+        cfg = make_cfg(case["world"], case["eoc"], case.get("autoflush", True))
         ms = model_for(cfg)
         hist_ = tuple(_tuplify(h) for h in case["history"])
         for h in hist_:
